@@ -790,8 +790,18 @@ pub fn check_cmp(r: &mut Recorder, c: &Value) {
     r.pool_add(&la);
     r.pool_add(&lb);
     let exp_eq = c["eq"].as_bool().unwrap_or(false);
+    // ==, cmp and hash are functions of the VALUE: printing one operand (or both) in between must not change them
+    // (a lazily filled cache inside the value that takes part in the derived Eq / Ord / Hash would)
+    let obs = |x: &Locale, y: &Locale| (x == y, x.cmp(y), hash_of(x) == hash_of(y), x.id == y.id, x.extensions == y.extensions);
+    let o0 = obs(&la, &lb);
     let sa = la.to_string();
+    let o1 = obs(&la, &lb);
     let sb = lb.to_string();
+    let o2 = obs(&la, &lb);
+    if o0 != o1 || o1 != o2 {
+        r.dis(&["C12"], "eq-cmp-or-hash-changes-when-an-operand-is-printed", json!({"a": sa, "b": sb, "routes": [c["a"], c["b"]],
+              "before": format!("{:?}", o0), "after_printing_a": format!("{:?}", o1), "after_printing_both": format!("{:?}", o2)}));
+    }
     if b(&sa) != c["sa"] || b(&sb) != c["sb"] {
         r.dis(&["C10", "C04"], "cmp-route-text", json!({"case": c, "observed": [sa, sb]}));
         return;
